@@ -100,6 +100,7 @@ type Specs struct {
 	Files     []string
 	Lemmas    []*Lemma
 	Tokens    map[string]int // scan of assume/trusted tokens
+	TypeLits  map[string]bool // concrete type names used in typeis()/unbox()
 }
 
 type Lemma struct {
@@ -115,7 +116,7 @@ type lemmaVar struct{ Name, Type string }
 
 func newSpecs() *Specs {
 	return &Specs{Contracts: map[string]*Contract{}, Preds: map[string]*Pred{}, UFuncs: map[string]*UFunc{},
-		Ghosts: map[string]*GhostVar{}, Consts: map[string]ast.Expr{}, Tokens: map[string]int{}}
+		Ghosts: map[string]*GhostVar{}, Consts: map[string]ast.Expr{}, Tokens: map[string]int{}, TypeLits: map[string]bool{}}
 }
 
 var kwRe = regexp.MustCompile(`^(pkg|func|props|requires|ensures|assigns|loop|assert|inline|trusted|pure|nonnil|let|pred|ghost|guarded_by|ufunc|const|overflow|lemma|var|hyp|concl|axiom|end|external)\b`)
@@ -402,6 +403,9 @@ func (sp *Specs) loadSpecFile(path string, external bool) error {
 		t := strings.TrimSpace(line)
 		if t == "" || strings.HasPrefix(t, "#") {
 			continue
+		}
+		for _, m := range regexp.MustCompile(`(?:typeis|unbox)\([^,]+,\s*"([^"]+)"\)`).FindAllStringSubmatch(t, -1) {
+			sp.TypeLits[m[1]] = true
 		}
 		for _, tok := range []string{"assume", "admit", "trusted", "external_body", "axiom"} {
 			if regexp.MustCompile(`(^|\W)` + tok + `(\W|$)`).MatchString(t) {
